@@ -113,9 +113,17 @@ type hookState struct {
 	dev      core1_0.Device
 	failMask uint32
 	failCode int
+	calls    int // vkAllocateMemory calls since the current op started
 }
 
+// a fallback loop that never terminates must not take the harness down with it
+const maxAllocCallsPerOp = 1000
+
 func (h *hookState) arm(typeIndex int) {
+	h.calls++
+	if h.calls > maxAllocCallsPerOp {
+		panic("selh: runaway allocation loop")
+	}
 	if typeIndex >= 0 && typeIndex < 32 && h.failMask>>uint(typeIndex)&1 != 0 {
 		h.sim.ArmFault(int(simvk.CallAlloc), 1, h.failCode, false)
 	}
@@ -427,7 +435,7 @@ func (w *world) exec(o op) outcome {
 		out.preq, out.ppref, out.pnpref = vam.VerifFindMemoryPreferences(fw.alloc, q.createInfo(), q.bufimg)
 		out.hasPrefs = true
 		fw.sim.TakeLog()
-		fw.hook.failMask, fw.hook.failCode = q.oomMask, q.failCode
+		fw.hook.failMask, fw.hook.failCode, fw.hook.calls = q.oomMask, q.failCode, 0
 		var al vam.Allocation
 		var res common.VkResult
 		var aerr error
